@@ -232,3 +232,17 @@ CHECKS["C13"] = dict(
     what_fails="a result that omits data was returned without an error, without the partition being listed as missing, or with HTTP 200",
     rule=("5 generated tables/datasets x 2-3 queries x 6 deadline placements (embedded); 1 cluster x 2-3 queries x (8 error subsets + 3 slow partitions); 3 web configurations x 2 routes. "
           "Each outcome (complete?, error?, missing partition listed?, HTTP status) must satisfy: complete or told. non-trivial: the result is incomplete / a fault was injected"))
+
+CHECKS["C20"] = dict(
+    stages=[dict(sub="c20codec", quick=400, thorough=20000, shrink=["a", "b", "c"]),
+            dict(sub="c20rpc", quick=24, thorough=600, shrink=["points", "queries"], parallel=16, shards=8)],
+    finding_key=db_finding_key,
+    assumptions=["c20codec: every generated expression is sent through the real rpc.Codec (msgpack) as a field of a RemoteQueryResult; the DECODED expression object then runs the C05 unit "
+                 "correspondence (Update over three batches, Merge, Get) against the model of the ORIGINAL, with IF conditions that are real goexpr trees evaluated on generated dims; "
+                 "name, String() and EncodedWidth() must be equal; the read-out of LN/LOG2/LOG10 is compared for set-ness only",
+                 "c20codec also round-trips Insert/Query/Point/QueryStats/unflat rows/flat rows messages (instants compared with time.Equal)",
+                 "c20rpc: inserts through the rpc inserter and queries through rpc.Dial <-> rpcserver.PrepareServer on 127.0.0.1 (snappy + gRPC + msgpack, password set) compared with the reference, i.e. with the embedded answer"] + _DB_ASSUME[:4],
+    trusted=["msgpack, gRPC framing and snappy are external: what is proved is that zenodb's use of them restores every behaviour-relevant field (codec table) and that the modelled encode/decode is the identity"] + _DB_TRUSTED,
+    what_fails="an expression, message, row or query result that crossed the RPC boundary no longer behaves like / equals the original",
+    rule=("c20codec: 400 random expression trees (whole modelled grammar incl. unary math and IF over generated goexpr predicates) x 3 batches of points, + 240 messages; "
+          "c20rpc: 24 generated tables/datasets with 5 queries each through the real RPC stack. non-trivial: expression size >= 2 / >= 3 points"))
